@@ -100,16 +100,24 @@ def check_edit(case):
     return out
 
 
-def _judge(H, net, rules):
+def _judge(H, net, rules, used=None, view=None):
+    """`used`: the registered species when some occur in no reaction (zero rows); `view`: (graph, scale, species node names) to hand
+    the analysis a bipartite graph whose coefficients are `scale` times the network's instead of the network object"""
     from synkit.CRN.Props import stoich
     from synkit.CRN.Petri import semiflows
 
     names = ec.SPECIES
-    used, S = exact_S(net, names)
+    used0, S0 = exact_S(net, names)
+    if used is None:
+        used, S = used0, S0
+    else:
+        S = [S0[used0.index(x)] if x in used0 else [0] * len(net) for x in used]
     ns, nr = len(used), len(net)
     fails = []
     rk = rl.rank(S)
     rule_of = rules or ["r"] * nr
+    if view is not None:
+        return _judge_view(net, used, S, rk, view)
     # --- matrix
     sp, rx, Sm = stoich.build_S(H)
     want_cols = Counter((rule_of[j], tuple(S[i][j] for i in range(ns))) for j in range(nr))
@@ -184,15 +192,139 @@ def _judge(H, net, rules):
     )
 
 
-def judge(H, net, rules):
+def _judge_view(net, used, S, rk, view):
+    """the analysis handed a bipartite graph directly; its coefficients are `scale` x the integer ones, so rank, kernels and verdicts are those of S"""
+    from synkit.CRN.Props import stoich
+    from synkit.CRN.Petri import semiflows
+
+    G, scale, vname = view
+    ns, nr = len(used), len(net)
+    fails = []
+    sp, rx, Sm = stoich.build_S(G)
+    rows = {str(x): i for i, x in enumerate(sp)}
+    ok = Sm.shape == (ns, nr) and len(rows) == ns
+    if ok:
+        # rows may come in the graph's own order: compare as a set of labelled rows, columns as a multiset
+        want_cols = Counter(tuple(scale * S[i][j] for i in range(ns)) for j in range(nr))
+        try:
+            order = [rows[x] for x in used]
+            got_cols = Counter(tuple(float(Sm[order[i], j]) for i in range(ns)) for j in range(nr))
+            ok = got_cols == Counter(tuple(float(x) for x in c) for c in want_cols.elements())
+        except KeyError:
+            ok = False
+    if not ok:
+        fails.append(Fail("view_matrix", f"{vname}: species={list(sp)} S={Sm.tolist()}", f"{scale} x the integer matrix on species {used}", key_extra=vname))
+        return Outcome(nontrivial=True, outcome="view_matrix_bad", fails=fails, transitions=1)
+    if stoich.stoichiometric_rank(G) != rk:
+        fails.append(Fail("view_rank", f"{vname}: {stoich.stoichiometric_rank(G)}", str(rk), key_extra=vname))
+    for name, fn, A, dim_want, n in (("left_kernel", stoich.left_nullspace, Sm.T, ns - rk, ns), ("right_kernel", stoich.right_nullspace, Sm, nr - rk, nr),
+                                     ("p_semiflows", semiflows.find_p_semiflows, Sm.T, ns - rk, ns), ("t_semiflows", semiflows.find_t_semiflows, Sm, nr - rk, nr)):
+        B = np.atleast_2d(fn(G))
+        k = 0 if B.size == 0 else B.shape[1]
+        ok = k == dim_want
+        if ok and k:
+            ok = B.shape[0] == n and np.abs(A @ B).max() <= 1e-8 * max(1.0, np.abs(B).max()) and np.linalg.matrix_rank(B, tol=1e-8) == k
+        if not ok:
+            fails.append(Fail("view_" + name, f"{vname}: shape={B.shape} basis={np.round(B, 6).tolist()}", f"{dim_want} independent vectors annihilating S", key_extra=vname))
+    cons_want, cert1 = rl.positive_kernel_decision(rl.transpose(S), ns)
+    consi_want, cert2 = rl.positive_kernel_decision(S, nr)
+    if cons_want is None or consi_want is None:
+        return Outcome(skipped="oracle_undecided", fails=fails)
+    kc = "class:conservative-with-left-kernel-dim>=2,reported-not-conservative" if (cons_want and ns - rk >= 2) else ""
+    got = stoich.is_conservative(G)
+    if got is not cons_want:
+        fails.append(Fail("is_conservative", str(got), f"{cons_want} (certificate {cert1}) [{vname}]", key_extra=vname, key_class=kc if got is False else ""))
+    got = stoich.is_consistent(G)
+    if got is not consi_want:
+        fails.append(Fail("view_is_consistent", f"{vname}: {got}", f"{consi_want} (certificate {cert2})", key_extra=vname))
+    return Outcome(nontrivial=(ns - rk > 0 or nr - rk > 0), outcome=f"view/rank{rk}/{ns}x{nr}", fails=fails, transitions=8)
+
+
+def judge(H, net, rules, used=None):
     """analysis must not change the network it analyses"""
     from mc.checks.c15 import snap
 
     before = snap(H)
-    out = _judge(H, net, rules)
+    out = _judge(H, net, rules, used=used)
     if snap(H) != before:
         out.fails.append(Fail("analysis_mutates_network", "the network object changed while it was analysed", "unchanged"))
     return out
+
+
+def gen_small(tier, seed):
+    """quick: the unit-coefficient networks, the textbook ones and 1 in 8 of the others (by a hash of the network); thorough: the whole family"""
+    for s in gen(tier, seed):
+        if tier != "quick" or "2" not in s or zlib.crc32(s.encode()) % 8 == 0:
+            yield s
+
+
+def net_of(H):
+    """the reactions a network object holds, as coefficient vectors over ec.SPECIES, in id order"""
+    out = []
+    for eid in sorted(H.edges):
+        e = H.edges[eid]
+        out.append((tuple(int(e.reactants.get(x, 0)) for x in ec.SPECIES), tuple(int(e.products.get(x, 0)) for x in ec.SPECIES)))
+    return tuple(out)
+
+
+def check_isolated(case):
+    """a species is taken out of every reaction while the species its reactions leave behind stay registered
+    (remove_species(..., prune_orphans=False)): every registered species keeps its row"""
+    net = ec.parse_net(case)
+    used0, _ = exact_S(net, ec.SPECIES)
+    fails = []
+    n = 0
+    nontriv = False
+    for s in used0:
+        H = ec.build_hypergraph(net)
+        judge(H, net, None)
+        H.remove_species(s, prune_orphans=False)
+        if not H.edges:
+            continue
+        net2 = net_of(H)
+        used2 = sorted(H.species)
+        occurring = {ec.SPECIES[i] for l, r in net2 for i in range(len(l)) if l[i] or r[i]}
+        nontriv = nontriv or bool(set(used2) - occurring)
+        out = judge(H, net2, None, used=used2)
+        n += out.transitions or 1
+        for f in out.fails:
+            f.tag = "isolated_" + f.tag
+            f.key_extra = f"-{s}"
+        fails += out.fails
+        if fails:
+            break
+    return Outcome(nontrivial=nontriv, outcome="isolated" if nontriv else "no_isolated", fails=fails, transitions=n)
+
+
+def check_views(case):
+    """the analysis handed bipartite graphs directly: as exported, with nodes and arcs inserted in the opposite order, and with every coefficient halved"""
+    from synkit.CRN.Hypergraph.conversion import hypergraph_to_bipartite
+
+    net = ec.parse_net(case)
+    H = ec.build_hypergraph(net)
+    used, _ = exact_S(net, ec.SPECIES)
+    fails = []
+    n = 0
+    nt = False
+    sk = None
+    for integer_ids in (False, True):
+        bip = hypergraph_to_bipartite(H, integer_ids=integer_ids)
+        rev = type(bip)()
+        rev.graph.update(bip.graph)
+        for v, d in reversed(list(bip.nodes(data=True))):
+            rev.add_node(v, **dict(d))
+        for u, v, d in reversed(list(bip.edges(data=True))):
+            rev.add_edge(u, v, **dict(d))
+        half = bip.copy()
+        for u, v, d in half.edges(data=True):
+            d["stoich"] = 0.5 * d.get("stoich", 1)
+        for vname, G, scale in ((f"exported,int={integer_ids}", bip, 1), (f"reversed_insertion,int={integer_ids}", rev, 1), (f"halved,int={integer_ids}", half, 0.5)):
+            out = _judge(H, net, None, view=(G, scale, vname))
+            n += out.transitions or 1
+            nt = nt or out.nontrivial
+            sk = sk or out.skipped
+            fails += out.fails
+    return Outcome(nontrivial=nt, outcome="views", fails=fails, transitions=n, skipped=sk if not fails else None)
 
 
 def subchecks(tier, seed):
@@ -200,6 +332,8 @@ def subchecks(tier, seed):
 
     return [
         Sub("networks", gen, check, key=lambda c: c, rule=RULE[tier]),
+        Sub("isolated_species", gen_small, check_isolated, key=lambda c: c, rule="every unit-coefficient and textbook network and 1 in 8 of the others (thorough: all), every species in turn taken out of all reactions with the left-behind species kept registered: one row per registered species, all clauses re-judged"),
+        Sub("bipartite_views", gen_small, check_views, key=lambda c: c, rule="every unit-coefficient and textbook network and 1 in 8 of the others (thorough: all) handed to the analysis as a bipartite graph (string and integer ids): as exported, inserted in the opposite order, every coefficient halved (matrix = 0.5 x S; rank, kernel dimensions, verdicts unchanged)"),
         Sub("edited", lambda t, s: el.gen_edits(t), check_edit, key=lambda c: f"{c['net']} / {c['edit']}", rule="analyse, edit in place (replace a reaction under the same id / remove a species), analyse again; all such edits of every 2-reaction unit-coefficient network up to permutation (quick: 1 in 4 of the replacements)"),
     ]
 
